@@ -201,6 +201,9 @@ fn hash_of(s: &ScalarValue) -> u64 {
     s.hash(&mut h);
     h.finish()
 }
+fn display_panics(s: &ScalarValue) -> bool {
+    catch_unwind(AssertUnwindSafe(|| s.to_string())).is_err()
+}
 fn dbg(s: &ScalarValue) -> String {
     json_str(&format!("{s:?}").chars().take(200).collect::<String>())
 }
@@ -432,7 +435,8 @@ fn s_cast(r: &mut Rng, id: u64) {
     let p = r.below(6);
     let s = if k == "utf8" && r.chance(1, 2) { ScalarValue::Utf8(Some(r.pick(&["1", "-7", "300", "1.5", "abc", "", "2020-01-02", "true", " 12", "1e3", "99999999999999999999"]).to_string())) } else { gen(r, k, 15, p) };
     let ts = cast_targets();
-    let t = r.pick(&ts).clone();
+    // a third of the cases are integer -> integer (the modelled casts)
+    let t = if ity(&s).is_some() && r.chance(1, 2) { ts[r.below(8) as usize].clone() } else { r.pick(&ts).clone() };
     guard("cast", id, || {
         let r1 = s.cast_to(&t);
         let arr = s.to_array_of_size(3).unwrap();
@@ -441,6 +445,16 @@ fn s_cast(r: &mut Rng, id: u64) {
             ColumnarValue::Scalar(x) => Ok(x),
         });
         let r3 = arrow::compute::cast_with_options(&arr, &t, &datafusion_common::format::DEFAULT_CAST_OPTIONS).map_err(|e| e.to_string()).and_then(|a| ScalarValue::try_from_array(&a, 1).map_err(|e| e.to_string()));
+        // Display / Debug of the result must not panic (formatting below relies on it)
+        for x in [r1.as_ref().ok(), r2.as_ref().ok()].into_iter().flatten() {
+            if display_panics(x) {
+                let raw = match x {
+                    ScalarValue::Date64(Some(v)) => v.to_string(),
+                    _ => "?".into(),
+                };
+                return (false, format!("Display panics on the cast result {:?}({raw})", x.data_type()), format!("\"from\":{},\"to\":{},\"display_panic\":{}", json_str(&format!("{:?}", s.data_type())), json_str(&format!("{t:?}")), json_str(&format!("{:?}", x.data_type()))));
+            }
+        }
         let mut why = String::new();
         match (&r1, &r2) {
             (Ok(a), Ok(b)) => {
@@ -656,6 +670,13 @@ fn fixed(id: &mut u64) {
         let (e, h) = (a == b, hash_of(&a) == hash_of(&b));
         let ok = !(e && !h);
         emit("fixed", *id, ok, if ok { "" } else { "== but hashes differ" }, format!("\"a\":{},\"b\":{},\"m\":[{{\"c\":\"cmp\",\"a\":{ma},\"b\":{mb},\"obs\":{}}},{{\"c\":\"cmp\",\"a\":{mb},\"b\":{ma},\"obs\":{}}},{{\"c\":\"eq\",\"a\":{ma},\"b\":{mb},\"eq\":{e},\"heq\":{h}}}]", dbg(&a), dbg(&b), ord_code(a.partial_cmp(&b)), ord_code(b.partial_cmp(&a))));
+        *id += 1;
+    }
+    // witness of KF-C34-1: Display of Date64(i64::MIN) panics (Duration::try_milliseconds(v).unwrap())
+    {
+        let x = ScalarValue::Int64(Some(i64::MIN)).cast_to(&DataType::Date64);
+        let bad = matches!(&x, Ok(v) if display_panics(v));
+        emit("cast", *id, !bad, if bad { "Display panics on the cast result Date64(-9223372036854775808)" } else { "" }, format!("\"from\":\"Int64\",\"to\":\"Date64\",\"display_panic\":{}", if bad { "\"Date64\"" } else { "null" }));
         *id += 1;
     }
     // descending bisect on a fixed table (the witness of the off-by-one class)
